@@ -326,6 +326,17 @@ theorem inv_step (s s' : St) (a : Act) (hI : Inv s) (hs : step s a = some s') : 
         by_cases e : t = tok
         · subst e; omega
         · simp [this, e]
+    · split at hs
+      · simp at hs; subst hs; exact ⟨hsub, hsafe, honce, hborn, hrl, hsn, hdj, hrel, hct⟩
+      · simp at hs
+  | peerReq =>
+    obtain ⟨hsub, hsafe, honce, hborn, hrl, hsn, hdj, hrel, hct⟩ := hI
+    simp [step] at hs; subst hs
+    exact ⟨hsub, hsafe, honce, hborn, hrl, hsn, hdj, hrel, hct⟩
+  | doneRefused tok =>
+    simp only [step] at hs
+    split at hs
+    · simp at hs; subst hs; exact hI
     · simp at hs
   | expire =>
     obtain ⟨hsub, hsafe, honce, hborn, hrl, hsn, hdj, hrel, hct⟩ := hI
@@ -431,7 +442,9 @@ theorem c11_done_monotone (s s' : St) (a : Act) (tok : Nat) (hs : step s a = som
     simp only [step] at hs
     split at hs
     · simp at hs; subst hs; simp [hd]
-    · simp at hs
+    · split at hs
+      · simp at hs; subst hs; exact hd
+      · simp at hs
   | expire =>
     simp only [step] at hs
     split at hs
@@ -442,6 +455,12 @@ theorem c11_done_monotone (s s' : St) (a : Act) (tok : Nat) (hs : step s a = som
     split at hs
     · simp at hs
     · simp at hs; subst hs; exact hd
+  | peerReq => simp [step] at hs; subst hs; exact hd
+  | doneRefused t =>
+    simp only [step] at hs
+    split at hs
+    · simp at hs; subst hs; exact hd
+    · simp at hs
 
 theorem c11_done_not_listed (as : List Act) (tok : Nat) (hd : tok ∈ (run {} as).doneToks) :
     tok ∉ (run {} as).live :=
@@ -527,13 +546,21 @@ theorem c11_grace (s s' : St) (a : Act) (hs : step s a = some s') (hp : s.presen
     simp only [step] at hs
     split at hs
     · simp at hs; subst hs; exact hp
-    · simp at hs
+    · split at hs
+      · simp at hs; subst hs; exact hp
+      · simp at hs
   | expire => exact (ha rfl).elim
   | localStart t =>
     simp only [step] at hs
     split at hs
     · simp at hs
     · simp at hs; subst hs; exact hp
+  | peerReq => simp [step] at hs; subst hs; exact hp
+  | doneRefused t =>
+    simp only [step] at hs
+    split at hs
+    · simp at hs; subst hs; exact hp
+    · simp at hs
 
 /-- **released afterwards**: once no instance is listed any more and no arrival is inside the
 `transmitMux` region, a tree that was used by an instance is scheduled for removal; the timer
@@ -553,6 +580,110 @@ theorem c11_released (as : List Act)
     rw [List.countP_eq_zero]; intro t ht; rcases hq t ht with h | h <;> simp [at_, h]
   have ha := hI.rel hu hp hl h1 h2 h3
   exact ⟨ha, { s with present := false, armed := false }, by simp [step, ha], rfl⟩
+
+/-! ### peers asking for the tree, other instances, refused and repeated `Done()` (round 4) -/
+
+/-- **a peer's tree request changes nothing**: it is answered exactly when the tree is stored, and it
+touches neither the tree, nor a scheduled removal (it does not prolong the grace period — and it does not
+cancel the removal, which would keep the tree for ever), nor any instance. -/
+theorem c11_peer_request_reads_only (s s' : St) (h : step s .peerReq = some s') :
+    s'.present = s.present ∧ s'.armed = s.armed ∧ s'.live = s.live ∧ s'.settled = s.settled ∧
+    s'.doneToks = s.doneToks ∧ s'.constructed = s.constructed ∧ s'.handed = s.handed ∧ s'.thr = s.thr ∧
+    s'.peerAnswered = s.peerAnswered + (if s.present then 1 else 0) := by
+  simp [step] at h; subst h
+  cases s.present <;> simp
+
+/-- **peers asking for the tree are served while it is used**: in every reachable state in which an
+instance (whose creation has completed) is listed, a peer's request for the tree is answered. -/
+theorem c11_peers_served_while_used (as : List Act) (h : (run {} as).settled ≠ []) :
+    ∃ s', step (run {} as) .peerReq = some s' ∧ s'.peerAnswered = (run {} as).peerAnswered + 1 := by
+  have hp := (c11_tree_while_used as h).1
+  refine ⟨_, rfl, ?_⟩
+  simp [hp]
+
+theorem present_stays_without_expire (as : List Act) (s : St) (hp : s.present = true)
+    (hne : ∀ a ∈ as, a ≠ .expire) : (run s as).present = true := by
+  induction as generalizing s with
+  | nil => exact hp
+  | cons a as ih =>
+    have hne' : ∀ a ∈ as, a ≠ .expire := fun a ha => hne a (List.mem_cons_of_mem _ ha)
+    simp only [run]
+    split
+    · rename_i s' hs
+      exact ih s' (c11_grace s s' a hs hp (fun e => hne a (List.mem_cons_self ..) e)) hne'
+    · exact ih s hp hne'
+
+/-- **… and for the whole grace period after the last one finished**: from any state in which the tree is
+stored, whatever happens next — instances finishing, late messages, new runs, other peers' requests —
+as long as the removal timer has not fired, a peer's request for the tree is answered. -/
+theorem c11_peers_served_during_grace (as : List Act) (s : St) (hp : s.present = true)
+    (hne : ∀ a ∈ as, a ≠ .expire) :
+    ∃ s', step (run s as) .peerReq = some s' ∧ s'.peerAnswered = (run s as).peerAnswered + 1 := by
+  have := present_stays_without_expire as s hp hne
+  refine ⟨_, rfl, ?_⟩
+  simp [this]
+
+/-- **other instances are unaffected** when an instance declares itself done: every other token is listed
+(and settled) exactly as before, nothing is handed over or constructed, no thread moves, the tree stays
+stored, and only this token is added to the done markers. -/
+theorem c11_done_others_unaffected (s s' : St) (tok : Nat) (h : step s (.done tok) = some s') :
+    (∀ t, t ≠ tok → ((t ∈ s'.live ↔ t ∈ s.live) ∧ (t ∈ s'.settled ↔ t ∈ s.settled) ∧
+        (t ∈ s'.doneToks ↔ t ∈ s.doneToks))) ∧
+    s'.handed = s.handed ∧ s'.constructed = s.constructed ∧ s'.thr = s.thr ∧ s'.present = s.present := by
+  simp only [step] at h
+  split at h
+  · simp at h; subst h
+    refine ⟨fun t ht => ?_, rfl, rfl, rfl, rfl⟩
+    simp [ht]
+  · split at h
+    · simp at h; subst h; simp
+    · simp at h
+
+/-- … and they go on being served: in every reachable state, a message for a listed instance (creation
+completed) that arrives while no other arrival is inside the `transmitMux` region is handed to that very
+instance — whichever other instances have finished before. -/
+theorem c11_live_instance_served (as : List Act) (t m : Nat) (ht : t ∈ (run {} as).settled)
+    (hm : (run {} as).thr.countP holdsMux = 0) :
+    let s := run {} as
+    let n := s.thr.length
+    (run s [.arrive t m, .thread n, .thread n]).handed = s.handed ++ [(t, m)] ∧
+    (run s [.arrive t m, .thread n, .thread n]).live = s.live ∧
+    (run s [.arrive t m, .thread n, .thread n]).constructed = s.constructed := by
+  have hI := inv_run as {} inv_init
+  simp only
+  generalize run {} as = s at *
+  have hlive : t ∈ s.live := hI.sub t ht
+  have hnd : t ∉ s.doneToks := fun hd => hI.disj t hd hlive
+  have hp : s.present = true := (hI.safe (by intro e; simp [e] at ht)).1
+  simp [run, step, stepTh, hp, hm, holdsMux, hnd, hlive, List.countP_append]
+
+/-- `Done()` refused by the instance's `OnDoneCallback`, and `Done()` called once more on a finished
+instance (in any reachable state), change nothing at all -/
+theorem c11_refused_or_repeated_done_is_noop (as : List Act) (tok : Nat) :
+    (∀ s', step (run {} as) (.doneRefused tok) = some s' → s' = run {} as) ∧
+    (tok ∈ (run {} as).doneToks → step (run {} as) (.done tok) = some (run {} as)) := by
+  have hI := inv_run as {} inv_init
+  generalize run {} as = s at *
+  constructor
+  · intro s' h
+    simp only [step] at h
+    split at h
+    · simp at h; exact h.symm
+    · simp at h
+  · intro hd
+    have hns : tok ∉ s.settled := fun hs => hI.disj tok hd (hI.sub tok hs)
+    simp [step, hns, hd]
+
+/-- non-vacuity: two runs share the tree, one finishes, the other is still served and a peer still gets
+the tree; a refused `Done()` and a repeated one change nothing; after the last one finished the peer is
+served during the grace period and no longer after it -/
+example :
+    let as : List Act := [.localStart 1, .thread 0, .thread 0, .localStart 2, .thread 1, .thread 1, .doneRefused 1, .done 1,
+      .done 1, .peerReq, .arrive 2 7, .thread 2, .thread 2, .done 2, .peerReq, .expire, .peerReq]
+    (run {} as).doneToks = [1, 2] ∧ (run {} as).handed = [(2, 7)] ∧ (run {} as).peerAsked = 3 ∧
+    (run {} as).peerAnswered = 2 ∧ (run {} as).present = false ∧
+    (run {} (as.take 7)).live = [1, 2] := by decide
+
 
 /-! ### non-vacuity -/
 /-- a run: message creates instance 1, a second run 2 shares the tree, 1 finishes (tree stays: 2
@@ -788,9 +919,15 @@ def treeOps (s : C11.St) : C11.Act → List VOp
           | .set => [.set]                              -- `treeStorage.Set`
           | _ => []
       | none => []
-  | .done tok => if s.live.filter (· != tok) = [] then [.remove] else []          -- `cleanTreeStorage`
+  | .done tok =>
+      -- `cleanTreeStorage`; a second `Done()` of a finished instance returns before it
+      if tok ∈ s.settled ∧ s.thr.countP (regTok tok) = 0 then
+        (if s.live.filter (· != tok) = [] then [.remove] else [])
+      else []
   | .expire => [.expire]
   | .localStart _ => []
+  | .peerReq => []                                       -- `treeStorage.Get`: no refresh
+  | .doneRefused _ => []
 
 def cview (s : C11.St) : View := { present := s.present, armed := s.armed }
 
@@ -812,18 +949,29 @@ theorem c11_model_uses_store_ops (s s' : C11.St) (a : C11.Act) (h : C11.step s a
     split at h
     · rename_i ha; simp at h; subst h; simp [treeOps, vstep, cview, ha]
     · simp at h
+  | peerReq => simp [C11.step] at h; subst h; rfl
+  | doneRefused tok =>
+    simp only [C11.step] at h
+    split at h
+    · simp at h; subst h; rfl
+    · simp at h
   | done tok =>
     simp only [C11.step] at h
     split at h
-    · simp at h; subst h
-      simp only [treeOps, cview]
+    · rename_i hcond
+      simp at h; subst h
+      simp only [treeOps, cview, hcond, and_self, if_true]
       by_cases hl : s.live.filter (· != tok) = []
       · have hl' : ∀ a ∈ s.live, a = tok := by simpa using hl
         simp [hl, vstep]
         exact .inl hl'
       · have hl' : ¬ ∀ a ∈ s.live, a = tok := by simpa using hl
         simp [hl, hl']
-    · simp at h
+    · rename_i hcond
+      split at h
+      · simp at h; subst h
+        simp only [treeOps, hcond, if_false]; rfl
+      · simp at h
   | thread i =>
     simp only [C11.step] at h
     split at h
